@@ -20,4 +20,46 @@ PROPS = {
         "note": "",
         "assumptions": COMMON_ASSUME,
     },
+    "C10": {
+        "claimed": True,
+        "title": "Blind signatures and DLEQ proofs are algebraically correct and tamper-evident",
+        "lean": ["Gonuts.Props.C10"],
+        "streams": ["bdhke"],
+        "level": "proof",
+        "technique": "Lean 4 theorems (Mathlib linear algebra) about blind/sign/unblind/verify/GenerateDLEQ/VerifyDLEQ/VerifyProofDLEQ "
+                     "over an ABSTRACT module G over ZMod n (all primes n, all modules, arbitrary hash function) + a monitor stream that "
+                     "re-checks every stated identity and every single-field rejection on the real /repo/crypto and nut12 functions over secp256k1",
+        "design_ref": "DESIGN.md §4.2, §5 C10",
+        "text": "PROVED (Gonuts/Props/C10.lean, for every prime n, every ZMod n-module G, every g, Y, scalars, every function hashE): "
+                "unblind(sign(blind(Y,r),k),r,k•g) = k•Y, hence independent of r and accepted by verify; verify k' Y (k•Y) iff k'=k (Y≠0), "
+                "verify k Y' (k•Y) iff Y'=Y (k≠0), any other point fails; for EVERY nonce the proof of GenerateDLEQ(a,B',a•B') is accepted by "
+                "VerifyDLEQ under a•g, and with the wallet's r by VerifyProofDLEQ (re-blinding); special soundness: if C' ≠ a•B' (e.g. signed with "
+                "another key a'≠a, B'≠0) then every commitment (R1,R2) admits at most one challenge e with a response, so an accepted forgery must "
+                "have hit that one value with the hash; witness extraction (two openings of one commitment with e≠e' yield w with A=w•g and C'=w•B'); "
+                "nut12.VerifyProofsDLEQ modelled with its key lookup by amount and optional DLEQ (honest lists pass; amount that is not a key, or r removed, fails; "
+                "a STRIPPED DLEQ passes — NUT-12 makes it optional); tamper evidence as explicit reductions: if a transcript and the transcript with exactly one "
+                "of s, A, B', C' (blind-signature DLEQ) or s, r, secret(Y), amount(A), C (proof DLEQ) changed are both accepted with the same e, then the "
+                "two 4-tuples the verifier itself hashes are DISTINCT and COLLIDE under hashE — except in the exactly stated degenerate cases "
+                "(B'/secret: s = 0; r: A = 0 ∧ s = 0), which are proved to be real (the verifier then ignores the field).",
+        "note": "NOT proved: (1) that a change of e ALONE is rejected — algebra gives only the fixed-point characterisation dleq_tamper_e_iff "
+                "(accept ↔ e = hashE(sG−eA, sB'−eC', A, C')) and that the changed e makes the verifier hash a different input; 'always rejected' is a "
+                "random-oracle statement about SHA-256 and is covered by the differential/monitor stream only (what IS proved is its counting form, "
+                "dleq_tamper_e_random_oracle: among all functions hashE that accept the original transcript exactly a 1/n fraction accepts the one with e replaced "
+                "by a fixed e' — a statement about a uniformly random function, not about SHA-256); (2) infeasibility of finding hash collisions or "
+                "unique-challenge hits (computational assumption on SHA-256, appears in no theorem); (3) corner not modelled: VerifyDLEQ compares "
+                "the REDUCED scalar e with the RAW 32-byte SHA-256 output, so an honest proof whose hash is ≥ n (probability ≈ 2^-128) is rejected "
+                "by the Go code; the model maps the hash into ZMod n. Encoding-level malleability of the e/s strings (upper-case hex, bytes after "
+                "the 32nd) leaves the scalars unchanged and is recorded by the stream as information, not as tampering.",
+        "assumptions": [
+            "secp256k1 with its base point is a module over ZMod n (n its prime order) with g ≠ 0, HashToCurve never returns the identity, and the Go "
+            "functions compute the model's blind/sign/unblind/verify/dleq in it: validated, not proved, by stream bdhke (every identity recomputed from "
+            "library primitives and from a NUT-00/NUT-12 re-implementation; (n-1)G = -G checked)",
+            "hashE is an arbitrary function G^4 → ZMod n (SHA-256 over the hex of the uncompressed points, reduced mod n); no property of it is assumed; "
+            "the tamper theorems CONCLUDE an explicit collision",
+            "mint keys are nonzero and pairwise distinct, public keys pairwise distinct (hypotheses of the wrong-key statements): checked dynamically on all "
+            "180 keys of 3 generated keysets in every run",
+            "GenerateDLEQ draws its nonce from crypto/rand (not controllable): 'all nonces' is proved in Lean; the stream samples it by repeated calls and "
+            "additionally feeds the real verifiers with proofs made by a NUT-12 re-implementation of the prover at chosen edge nonces (1, 2, n-1, n-2, small, reduced)",
+        ],
+    },
 }
